@@ -366,6 +366,16 @@ func (e *Env) evalCallWith(call *ast.CallExpr, st *State, args []Value) Value {
 		}
 	}
 	v := e.evalCallWith0(call, st, args)
+	// call counters ("count (*DB).writeJournal"): advanced after the callee's own effects
+	if !st.dead {
+		if cl := e.resolveCallee(call, st); cl.fn != nil {
+			if fi := e.C.W.ByObj[cl.fn]; fi != nil && e.C.W.countedCall(fi) {
+				key := "G$calls." + fi.Short
+				arr := e.C.heapGet(st, key, SArr(SInt, SInt))
+				e.C.heapSet(st, key, Store(arr, IntC(0), IAdd(Select(arr, IntC(0)), IntC(1))))
+			}
+		}
+	}
 	if e.Top && !st.dead {
 		if ord, ok := e.C.callOrd[call.Pos()]; ok && e.C.Contract != nil && len(e.C.Contract.Ats) > 0 {
 			e.C.runAts(e, st, "call "+ord, nil)
@@ -427,6 +437,9 @@ func (e *Env) resultFresh(call *ast.CallExpr, st *State, cl callee) Value {
 
 func (c *FCtx) contractFor(cl callee) *Contract {
 	ct := c.contractFor0(cl)
+	if !c.LockSweep && ct != nil && c.PropFilter != "" {
+		ct = propView(ct, c.PropFilter)
+	}
 	if c.LockSweep && ct != nil {
 		sc := sweepContract(ct)
 		if len(sc.Requires) == 0 && len(sc.Ensures) == 0 && len(sc.Extra) == 0 {
@@ -714,6 +727,7 @@ func (c *FCtx) havocForCall(e *Env, st *State, fn *types.Func, call *ast.CallExp
 		keys = append(keys, k)
 	}
 	c.havocWriteSet(st, keys)
+	c.havocCounters(st, eff)
 	// allocation may have happened
 	old := c.heapGet(st, "$alloc", SInt)
 	n := c.freshVar("$alloc", SInt)
@@ -734,6 +748,15 @@ func (c *FCtx) havocForCall(e *Env, st *State, fn *types.Func, call *ast.CallExp
 					}
 				}
 			}
+		}
+	}
+}
+
+// havocCounters forgets the event and call counters a callee may advance.
+func (c *FCtx) havocCounters(st *State, eff *Effects) {
+	for k := range eff.Locks {
+		if isCounterKey(k) {
+			st.heap[k] = c.freshVar(k, SArr(SInt, SInt))
 		}
 	}
 }
@@ -812,6 +835,10 @@ func (e *Env) applyContract(call *ast.CallExpr, st *State, cl callee, ct *Contra
 		st.assume(g)
 	}
 	old := st.clone()
+	// event / call counters the callee may advance
+	if ct.Flags["pure"] == "" {
+		c.havocCounters(st, c.W.effectsOfCall(e.Info, call))
+	}
 	// frame
 	if ct.Flags["pure"] == "" {
 		if len(ct.Modifies) > 0 {
